@@ -69,6 +69,10 @@ func (c *Client) VerifQueues() [VerifArms]int {
 // VerifSegmentSize is the producer's segment size constant (8000, or the scaled value).
 func VerifSegmentSize() int { return pSegmentSize }
 
+// VerifSetWindow overrides the fetch window of the client's segment fetcher (a literal 10 in
+// newRrSegFetcher, not a named constant, so cmd/xform -const cannot scale it).
+func (c *Client) VerifSetWindow(n int) { c.fetcher.window = n }
+
 // VerifWindow is the fetch window of the client's segment fetcher.
 func (c *Client) VerifWindow() int { return c.fetcher.window }
 
